@@ -26,9 +26,14 @@ Proof. intros c H. unfold dig in H. change ch_dot with 46. lia. Qed.
 Lemma m64_small : forall x, x < 2 ^ 64 -> m64 x = x.
 Proof. intros x H. unfold m64, two64. change 18446744073709551616 with (2 ^ 64). apply N.mod_small. exact H. Qed.
 
+Definition nodigit (rest : list N) : Prop :=
+  match rest with [] => True | c :: _ => is_digit c = false end.
+Lemma delim_nodigit : forall rest, delim rest -> nodigit rest.
+Proof. intros [|c r] H; [exact I|]. destruct H as [H _]. exact H. Qed.
+
 (* the digit window: all of [ds] lies inside it *)
-Lemma scan_all : forall ds rest off maxend num dgt,
-  Forall dig ds -> delim rest -> off + len ds <= maxend ->
+Lemma scan_all_nd : forall ds rest off maxend num dgt,
+  Forall dig ds -> nodigit rest -> off + len ds <= maxend ->
   num * 10 ^ len ds + dval ds < 2 ^ 64 ->
   exists dgt', scan_window (ds ++ rest) off maxend num dgt = (rest, off + len ds, num * 10 ^ len ds + dval ds, dgt')
             /\ (dgt' = dgt \/ In dgt' ds \/ exists r, rest = dgt' :: r).
@@ -39,7 +44,7 @@ Proof.
     destruct rest as [|c r]; cbn [scan_window].
     + exists dgt. auto.
     + destruct (off <? maxend).
-      * destruct Hr as [Hc _]. rewrite Hc. exists c. split; [reflexivity|]. right. right. exists r. reflexivity.
+      * pose proof Hr as Hc. cbn in Hc. rewrite Hc. exists c. split; [reflexivity|]. right. right. exists r. reflexivity.
       * exists dgt. auto.
   - inversion Hd as [|? ? Hd1 Hd2]; subst.
     cbn [app scan_window length] in *. rewrite Nat2N.inj_succ in *.
@@ -58,6 +63,13 @@ Proof.
       rewrite Hg, Eo, Ev. reflexivity.
     + destruct Hor as [->|[Hin|Hex]]; [right; left; left; reflexivity|right; left; right; exact Hin|right; right; exact Hex].
 Qed.
+
+Lemma scan_all : forall ds rest off maxend num dgt,
+  Forall dig ds -> delim rest -> off + len ds <= maxend ->
+  num * 10 ^ len ds + dval ds < 2 ^ 64 ->
+  exists dgt', scan_window (ds ++ rest) off maxend num dgt = (rest, off + len ds, num * 10 ^ len ds + dval ds, dgt')
+            /\ (dgt' = dgt \/ In dgt' ds \/ exists r, rest = dgt' :: r).
+Proof. intros. apply scan_all_nd; auto. apply delim_nodigit. assumption. Qed.
 
 (* the window ends exactly after [ds]: whatever follows is left alone *)
 Lemma scan_stop : forall ds tail off maxend num dgt,
@@ -186,7 +198,7 @@ Theorem stn_body_lone_dot : forall is_neg off0 rest endo,
 Proof.
   intros is_neg off0 rest endo Hr. unfold stn_body.
   change (is_nz_digit ch_dot) with false. change (ch_dot =? ch_zero) with false. rewrite N.eqb_refl. cbn [orb andb tl].
-  destruct rest as [|c r].
+  destruct rest as [|c r]; cbn [skipz].
   - rewrite !N.eqb_refl. change (is_digit ch_dot) with false. cbn [andb negb bind]. eexists; split; reflexivity.
   - assert (Hz : (c =? ch_zero) = false).
     { apply N.eqb_neq. intros ->. vm_compute in Hr. discriminate. }
